@@ -1,15 +1,35 @@
 #!/bin/bash
-# tools/allseeds.sh [pattern]: every archived seed applied to /repo in turn, its own property's quick check run, undone.
-# Prints one line per seed; a seed that is not caught is a regression of the checks.
+# tools/allseeds.sh [-j N] [pattern]: every archived seeded change, each with the quick check of its own property.
+# Default (no -j): applied to /repo in turn and undone - the registered commands exactly as registered.
+# With -j N: each seed gets a scratch worktree of /repo HEAD under /tmp/rg and the check is pointed at it
+# (VERIF_TOOLING_REPO), N at a time; /repo and evidence/ are not touched.
+# One line per seed; a seed that is not caught (rc != 1) is a regression of the checks.
+J=0
+if [ "$1" = "-j" ]; then J=$2; shift 2; fi
 cd /verif
-for d in seeded/${1:-C*}/; do
-  s=$(basename $d); p=${s:0:3}
-  [ -f $d/patch.diff ] || continue
-  if ! git -C /repo apply --check /verif/$d/patch.diff 2>/dev/null; then echo "$s: patch no longer applies"; continue; fi
+one_inplace() {
+  d=$1; s=$(basename $d); p=${s:0:3}
+  if ! git -C /repo apply --check /verif/$d/patch.diff 2>/dev/null; then echo "$s: patch no longer applies"; return; fi
   git -C /repo apply /verif/$d/patch.diff
   OUT=$(./check $p 2>&1); RC=$?
   git -C /repo checkout -- .
   echo "$s: check=$p rc=$RC violations=$(echo "$OUT" | grep -c '^VIOLATION')"
-done
-git -C /repo status --short
-rm -rf /verif/replays
+}
+one_scratch() {
+  d=$1; s=$(basename $d); p=${s:0:3}; wt=/tmp/rg/$s
+  rm -rf $wt; git -C /repo worktree add -q --detach $wt HEAD 2>/dev/null || { echo "$s: worktree failed"; return; }
+  if ! git -C $wt apply /verif/$d/patch.diff 2>/dev/null; then echo "$s: patch no longer applies"; git -C /repo worktree remove --force $wt; return; fi
+  OUT=$(VERIF_TOOLING_REPO=$wt VERIF_TOOLING_OUT=/tmp/rg/out.$s ./check $p 2>&1); RC=$?
+  git -C /repo worktree remove --force $wt; rm -rf /tmp/rg/out.$s
+  echo "$s: check=$p rc=$RC violations=$(echo "$OUT" | grep -c '^VIOLATION')"
+}
+export -f one_inplace one_scratch
+if [ "$J" -gt 0 ]; then
+  mkdir -p /tmp/rg
+  ls -d seeded/${1:-C*}/ | while read d; do [ -f $d/patch.diff ] && echo $d; done | xargs -P $J -I{} bash -c 'one_scratch {}'
+  git -C /repo worktree prune; rmdir /tmp/rg 2>/dev/null
+else
+  for d in seeded/${1:-C*}/; do [ -f $d/patch.diff ] || continue; one_inplace $d; done
+  git -C /repo status --short
+  rm -rf /verif/replays
+fi
